@@ -223,6 +223,11 @@ class Context:
         # Store for other constructors to use
         self._object_prototype = object_prototype
 
+        def read(obj, key):
+            """obj[key] as a script would read it (accessors run their getter)."""
+            vm = self._current_vm
+            return vm._get_property(obj, key) if vm is not None else obj.get(key)
+
         def keys_fn(*args):
             obj = args[0] if args else UNDEFINED
             if not isinstance(obj, JSObject):
@@ -236,7 +241,7 @@ class Context:
             if not isinstance(obj, JSObject):
                 return JSArray()
             arr = JSArray()
-            arr._elements = [obj.get(k) for k in obj.keys()]
+            arr._elements = [read(obj, k) for k in obj.keys()]
             return arr
 
         def entries_fn(*args):
@@ -247,7 +252,7 @@ class Context:
             arr._elements = []
             for k in obj.keys():
                 entry = JSArray()
-                entry._elements = [k, obj.get(k)]
+                entry._elements = [k, read(obj, k)]
                 arr._elements.append(entry)
             return arr
 
@@ -261,7 +266,12 @@ class Context:
                 source = args[i]
                 if isinstance(source, JSObject):
                     for k in source.keys():
-                        target.set(k, source.get(k))
+                        value = read(source, k)
+                        if self._current_vm is not None:
+                            # an ordinary assignment: setters of the target run
+                            self._current_vm._set_property(target, k, value)
+                        else:
+                            target.set(k, value)
             return target
 
         def get_prototype_of(*args):
